@@ -215,7 +215,12 @@ func c17stepCreate(n int) {
 	if cn < 2 {
 		cnStr = verif_Addr(cn)
 	}
-	req := &types.MsgCreateCertificate{Owner: verif_Addr(signer), Cert: verif_CertPEM(cnStr, serial), Pubkey: verif_PubPEM()}
+	cert := verif_CertPEM(cnStr, serial)
+	if verif_Choice("issued-by-the-signer", 2) == 1 {
+		// not self-signed: the subject names cnStr, the issuing certificate names the signing account
+		cert = verif_DERToPEM(verif_CertDER(cnStr, verif_Addr(signer), serial, 1, 2, true, true))
+	}
+	req := &types.MsgCreateCertificate{Owner: verif_Addr(signer), Cert: cert, Pubkey: verif_PubPEM()}
 	err := c17create(ctx, k, req)
 	dup := false
 	for _, c := range cs {
